@@ -131,6 +131,9 @@ func planInlines(pkgs []*packages.Package) *inlinePlan {
 					continue
 				}
 				k := declKey(rel, fd)
+				if alt := altRecvKey(k); alt != "" && ref[alt] {
+					continue // an existing method whose receiver changed between value and pointer
+				}
 				if ref[k] || fd.Name.Name == "init" || fd.Name.Name == "main" || fd.Name.Name == "_" {
 					continue
 				}
